@@ -263,6 +263,31 @@ pub fn faults(cmd: u8, s: &S, v: &V, rng: &mut Rng, out: &mut Vec<Fault>) {
     }
 }
 
+/// every node of a plain value (keys included), as paths below `cur`
+fn vpaths(v: &V, cur: &mut schema::Path, out: &mut Vec<schema::Path>) {
+    out.push(cur.clone());
+    match v {
+        V::A(a) => {
+            for (i, x) in a.iter().enumerate() {
+                cur.push(Step::Elem(i));
+                vpaths(x, cur, out);
+                cur.pop();
+            }
+        }
+        V::M(m) => {
+            for (i, (k, x)) in m.iter().enumerate() {
+                cur.push(Step::MapKey(i));
+                vpaths(k, cur, out);
+                cur.pop();
+                cur.push(Step::MapVal(i));
+                vpaths(x, cur, out);
+                cur.pop();
+            }
+        }
+        _ => {}
+    }
+}
+
 fn head_is_wider(v: &V, w: u8) -> bool {
     let n = match v {
         V::U(n) | V::N(n) => *n,
@@ -365,6 +390,73 @@ pub fn run(rep: &mut Rep) {
                 }
                 if rep.begin(&format!("{}/{}", name, f.kind)) {
                     judge_fault(rep, name, f);
+                }
+            }
+        }
+    }
+    // ---- malformed CBOR inside the value of an UNKNOWN member (the generic skipper's error paths):
+    //      reserved additional information on any head and indefinite-length strings/containers
+    //      are malformed wherever they occur.  (Non-minimal heads inside unknown values are not
+    //      injected: C06 asks for every well-formed definite-length value to be skipped.)
+    let ext_cmds: Vec<(u8, &'static str, S)> = cmds.iter().filter(|c| matches!(c.0, 0x01 | 0x02 | 0x0a)).cloned().collect();
+    for (cmd, name, s) in &ext_cmds {
+        let n = rep.n(24, 1200);
+        for _ in 0..n * rep.nshards {
+            case += 1;
+            if !rep.mine(case) {
+                continue;
+            }
+            let mut rng = Rng::derive(seed, "c05-unknown", case);
+            let mut g = G::new(&mut rng);
+            g.top_mask = Some(u64::MAX);
+            g.nested = Nested::All;
+            g.small = true;
+            let v = gen_message(s, &mut g);
+            let hosts: Vec<schema::Path> = nodes(s, &v)
+                .into_iter()
+                .filter(|nd| matches!(nd.s, S::Map(ms) if ms.extensible))
+                .map(|nd| nd.path)
+                .collect();
+            if hosts.is_empty() {
+                continue;
+            }
+            let host = hosts[rng.usize(hosts.len())].clone();
+            let mut budget = 160;
+            let val = crate::mon::c06::gen_unknown_value(&mut rng, 4, &mut budget);
+            let mut m = v.clone();
+            let idx = match at_mut(&mut m, &host) {
+                Some(V::M(e)) => {
+                    let pos = rng.usize(e.len() + 1);
+                    e.insert(pos, (V::text("zzUnknownMember"), val.clone()));
+                    pos
+                }
+                _ => continue,
+            };
+            if !matches!(decode(&msg(*cmd, &m)), Decoded::Ok(..)) {
+                rep.count("seed_with_unknown_member_not_accepted(judged under C06)", 1);
+                continue;
+            }
+            let mut base = host.clone();
+            base.push(Step::MapVal(idx));
+            let mut subpaths = Vec::new();
+            vpaths(&val, &mut base.clone(), &mut subpaths);
+            for sp in subpaths {
+                let here = at(&m, &sp).cloned().unwrap_or(V::Null);
+                let mut ws: Vec<(u8, &'static str)> = vec![(28, "reserved-additional-info-in-unknown"), (29, "reserved-additional-info-in-unknown"), (30, "reserved-additional-info-in-unknown")];
+                match here {
+                    V::U(_) | V::N(_) => ws.push((31, "reserved-additional-info-in-unknown")),
+                    V::B(_) | V::T(_) | V::A(_) | V::M(_) => ws.push((255, "indefinite-length-in-unknown")),
+                    _ => continue,
+                }
+                for (w, kind) in ws {
+                    if let Some(b) = encode_with_head(&m, &sp, w) {
+                        let mut bytes = vec![*cmd];
+                        bytes.extend_from_slice(&b);
+                        if rep.begin(&format!("{}/{}", name, kind)) {
+                            let f = Fault { kind, member: "unknown-member-value".into(), expect: 0x12, bytes };
+                            judge_fault(rep, name, &f);
+                        }
+                    }
                 }
             }
         }
